@@ -339,6 +339,22 @@ class Ref(object):
         k = ra.kind
         pos = len(self.events)
         self.ev(["act", F.name, fm.name, ra.ctx, ra.line, k, None])
+        boolres = ra.ctx in ("benter", "precur") or k == "fiat"
+        try:
+            res = self._do_act(ra)
+        except (Crash, Interrupt):
+            if boolres:
+                self.events[pos][6] = "raised"
+            raise
+        if boolres:
+            self.events[pos][6] = bool(res)
+        return res
+
+    def _do_act(self, ra):
+        fm = ra.frame
+        F = fm.framer
+        a = ra.a
+        k = ra.kind
         res = None
         if k == "put":
             self.write(a["dst"], a["val"])
@@ -388,8 +404,6 @@ class Ref(object):
                 self.deactivate_aux(X)
         else:
             raise ValueError("unexpected act kind %r in context %s" % (k, ra.ctx))
-        if ra.ctx in ("benter", "precur"):
-            self.events[pos][6] = bool(res)
         return res
 
     def do_mark(self, kind, path, key, transit):
@@ -552,6 +566,16 @@ class Ref(object):
         a = ra.a
         pos = len(self.events)
         self.ev(["act", F.name, fm.name, "precur", ra.line, "go", None])
+        try:
+            return self._transit(ra, pos)
+        except (Crash, Interrupt):
+            self.events[pos][6] = "raised"
+            raise
+
+    def _transit(self, ra, pos):
+        fm = ra.frame
+        F = fm.framer
+        a = ra.a
         needs = self.go_needs(ra)
         for j, n in enumerate(needs):
             r = self.eval_need(n, F, fm)
@@ -597,6 +621,17 @@ class Ref(object):
         X = self.framers[a["name"]]
         pos = len(self.events)
         self.ev(["act", F.name, fm.name, "precur", ra.line, "auxif", None])
+        try:
+            return self._suspend(ra, pos)
+        except (Crash, Interrupt):
+            self.events[pos][6] = "raised"
+            raise
+
+    def _suspend(self, ra, pos):
+        fm = ra.frame
+        F = fm.framer
+        a = ra.a
+        X = self.framers[a["name"]]
         needs = a.get("needs") or []
         if X.done and X.active is not None and X.main is fm:
             # marked done from outside its own run while still entered: clean up
